@@ -176,6 +176,8 @@ fn run_sched(conv: &Conv, s: &Stream, stream: &Arc<Vec<u8>>, wait_at: &[usize], 
 
 struct Batchings {
     alpha: Vec<(ClientCmd, &'static str)>,
+    /// true: only the fully pipelined batching (the client never waits)
+    pipelined_only: bool,
     len: usize,
     /// extra cuts: all sets of <= this many cut positions
     max_cuts: usize,
@@ -193,6 +195,9 @@ impl Batchings {
         (self.alpha.len() as u64).pow(self.len as u32)
     }
     fn n_batch(&self) -> u64 {
+        if self.pipelined_only {
+            return 1;
+        }
         // boundaries after H, after the fixed PREPARE, and after each command but the last
         1 << (self.len + 1)
     }
@@ -263,6 +268,9 @@ fn cuts_from_index(ci: u64, n: usize) -> Option<Vec<usize>> {
 
 impl Family for Batchings {
     fn name(&self) -> String {
+        if self.pipelined_only {
+            return format!("pipelined-len-{}-cuts-{}", self.len, self.max_cuts);
+        }
         if self.alpha.len() > 9 {
             return format!("batchings-{}-kinds-len-{}-cuts-{}", self.alpha.len(), self.len, self.max_cuts);
         }
@@ -606,20 +614,24 @@ pub fn build(quick: bool) -> Check {
     let mut families: Vec<Box<dyn Family>> = Vec::new();
     let a = alphabet();
     if quick {
-        families.push(Box::new(Batchings { alpha: a.clone(), len: 4, max_cuts: 0 }));
-        families.push(Box::new(Batchings { alpha: a.clone(), len: 1, max_cuts: 2 }));
-        families.push(Box::new(Batchings { alpha: wide_alphabet(), len: 3, max_cuts: 0 }));
-        families.push(Box::new(Batchings { alpha: a.clone(), len: 2, max_cuts: 1 }));
+        families.push(Box::new(Batchings { pipelined_only: false, alpha: a.clone(), len: 4, max_cuts: 0 }));
+        families.push(Box::new(Batchings { pipelined_only: false, alpha: a.clone(), len: 1, max_cuts: 2 }));
+        families.push(Box::new(Batchings { pipelined_only: false, alpha: wide_alphabet(), len: 3, max_cuts: 0 }));
+        families.push(Box::new(Batchings { pipelined_only: true, alpha: a.clone(), len: 3, max_cuts: 1 }));
+        families.push(Box::new(Batchings { pipelined_only: true, alpha: a.clone(), len: 4, max_cuts: 1 }));
+        families.push(Box::new(Batchings { pipelined_only: false, alpha: a.clone(), len: 2, max_cuts: 1 }));
         families.push(Box::new(SmallComps::new(14)));
         families.push(Box::new(ReplySizes::new(30_000)));
         families.push(Box::new(LargeRequests::new(&[70_000, MAXP - 1, MAXP, 2 * MAXP], 1)));
         families.push(Box::new(LargeRequests::new(&pow2_sizes(12..=17), 0)));
         families.push(Box::new(TwoLargeRequests::new(&[(MAXP + 10, MAXP + 10)])));
     } else {
-        families.push(Box::new(Batchings { alpha: a.clone(), len: 5, max_cuts: 0 }));
-        families.push(Box::new(Batchings { alpha: a.clone(), len: 2, max_cuts: 2 }));
-        families.push(Box::new(Batchings { alpha: wide_alphabet(), len: 4, max_cuts: 0 }));
-        families.push(Box::new(Batchings { alpha: a.clone(), len: 4, max_cuts: 1 }));
+        families.push(Box::new(Batchings { pipelined_only: false, alpha: a.clone(), len: 5, max_cuts: 0 }));
+        families.push(Box::new(Batchings { pipelined_only: false, alpha: a.clone(), len: 2, max_cuts: 2 }));
+        families.push(Box::new(Batchings { pipelined_only: false, alpha: wide_alphabet(), len: 4, max_cuts: 0 }));
+        families.push(Box::new(Batchings { pipelined_only: true, alpha: a.clone(), len: 5, max_cuts: 1 }));
+        families.push(Box::new(Batchings { pipelined_only: true, alpha: a.clone(), len: 3, max_cuts: 2 }));
+        families.push(Box::new(Batchings { pipelined_only: false, alpha: a.clone(), len: 4, max_cuts: 1 }));
         families.push(Box::new(SmallComps::new(15)));
         families.push(Box::new(ReplySizes::new(200_000)));
         families.push(Box::new(LargeRequests::new(&[4092, 70_000, MAXP - 1, MAXP, MAXP + 1, 2 * MAXP - 1, 2 * MAXP, 2 * MAXP + 1], 2)));
@@ -629,7 +641,7 @@ pub fn build(quick: bool) -> Check {
     Check {
         id: "C12",
         level: "model_checking",
-        rule: "command lists over {query->OK, query->resultset, prepare, execute, long data, close, ping, init db, field list} (after a fixed PREPARE; lists of 3 (thorough: 4) also over nine more kinds: a 300-packet reply, chained resultsets, ERR at once and after rows, refused PREPARE / INIT_DB, USE, a SELECT @@ probe, close of an unknown id) x all batchings (the client waits for all owed replies at any subset of message boundaries, from lock-step to fully pipelined; it never sends before the greeting) x cut sets of <= 2 positions; plus all 2^n compositions of small pipelined streams; plus a strict lock-step client receiving replies of every size 0..30000 (200000 in thorough) bytes as one cell, and as r rows for every r up to that total with cells of 0, 1, 2, 5, 9, 16, 37, 100, 255, 1000, 1455, 1456, 1459, 1460 and 4000 bytes (output-side buffering thresholds are approached in many strides); plus a strict lock-step client whose request is 70 KB .. 2*(2^24-1) bytes (exact multiples with their empty closing packet included) under <= 1 (thorough: 2) cuts around every packet header and the last six bytes of the request, and requests whose framed length is 2^k-2..2^k+2 for k = 12..17 (thorough 10..23); two multi-packet requests back to back, pipelined, with a cut around every packet header of the second. Invariant at every read(): the flushed output holds a complete reply (strictly decoded) for every message fully delivered so far. A read while the waiting client holds back its bytes is a hang.".into(),
+        rule: "command lists over {query->OK, query->resultset, prepare, execute, long data, close, ping, init db, field list} (after a fixed PREPARE; lists of 3 (thorough: 4) also over nine more kinds: a 300-packet reply, chained resultsets, ERR at once and after rows, refused PREPARE / INIT_DB, USE, a SELECT @@ probe, close of an unknown id) x all batchings (lists of 3-4 (thorough: 5) commands fully pipelined also under every single cut, of 3 under every pair of cuts) (the client waits for all owed replies at any subset of message boundaries, from lock-step to fully pipelined; it never sends before the greeting) x cut sets of <= 2 positions; plus all 2^n compositions of small pipelined streams; plus a strict lock-step client receiving replies of every size 0..30000 (200000 in thorough) bytes as one cell, and as r rows for every r up to that total with cells of 0, 1, 2, 5, 9, 16, 37, 100, 255, 1000, 1455, 1456, 1459, 1460 and 4000 bytes (output-side buffering thresholds are approached in many strides); plus a strict lock-step client whose request is 70 KB .. 2*(2^24-1) bytes (exact multiples with their empty closing packet included) under <= 1 (thorough: 2) cuts around every packet header and the last six bytes of the request, and requests whose framed length is 2^k-2..2^k+2 for k = 12..17 (thorough 10..23); two multi-packet requests back to back, pipelined, with a cut around every packet header of the second. Invariant at every read(): the flushed output holds a complete reply (strictly decoded) for every message fully delivered so far. A read while the waiting client holds back its bytes is a hang.".into(),
         assumptions: vec!["bytes written but not flushed are invisible to the simulated client".into()],
         bounds: json!({"max_commands": if quick {4} else {5}, "max_cuts": 2}),
         exhaustive: true,
